@@ -69,7 +69,26 @@ class C10(Prop):
             for rq, want_end in combos:
                 po = lib.parse(entry, data, (rq + want_end + case["rseed"]) & 1, rq, want_end)
                 stats.inner += 1
+                accepted = bool(po.tree)
                 self.judge(lib, stats, data, n, entry, rq, want_end, po, rc)
+                if accepted and n > 0 and (case["rseed"] + entry) % 3 == 0:
+                    # the same call with its k-th allocation refused: a failure for whatever reason must report a position
+                    for k in (1, 2, 3):
+                        lib.ledger_arm(k)
+                        po2 = lib.parse(entry, data, 0, rq, want_end)
+                        lib.ledger_arm(0)
+                        stats.inner += 1
+                        if po2.tree:
+                            lib.cJSON_Delete(po2.tree)
+                            break
+                        stats.cls("failure_by_allocation")
+                        where = "entry=%d require_null_terminated=%d allocation %d refused, buffer=%r" % (entry, rq, k, data[:80])
+                        if po2.err_off == NO_OFF or not (0 <= po2.err_off <= n - 1):
+                            raise Violation("failed parse without an error position inside the buffer (%s): %s" % (
+                                "NULL" if po2.err_off == NO_OFF else po2.err_off, where), key="errpos-alloc")
+                        if want_end and po2.end_off != po2.err_off:
+                            raise Violation("return_parse_end (%s) differs from the global error pointer (%d) after a failed parse (%s)" % (
+                                "not stored" if po2.end_off == NEVER_STORED else po2.end_off, po2.err_off, where), key="errpos-alloc")
 
     def judge(self, lib, stats, data, n, entry, rq, want_end, po, rc):
         where = "entry=%d require_null_terminated=%d want_end=%d buffer=%r" % (entry, rq, want_end, data[:120])
